@@ -9,7 +9,7 @@ class ProgBaseSuite:
     name = "prog"
     module = "harness.suites.prog"
     coq_module = "CheckProg"
-    families = (("mixed", 0.35), ("transfer", 0.3), ("fault", 0.25), ("lwops", 0.07), ("big", 0.03))
+    families = (("mixed", 0.33), ("transfer", 0.28), ("fault", 0.24), ("lwops", 0.06), ("drain", 0.06), ("big", 0.03))
     counts = {"quick": 220, "thorough": 6000}
     devices = ("evo", "fluent", "base")
     rule = (
